@@ -1417,25 +1417,150 @@ theorem csr_to_csc_wellformed (r : Csc) (n m : Nat) (hs : r.shape = [n, m]) :
     (csrToCsc r).wellFormed = true ∧ (csrToCsc r).shape = r.shape := by
   simp [csrToCsc, Csc.wellFormed, hs, cumul_length, Function.comp_def]
 
+/-! ## the `overwrite` argument (round 6) -/
+
+/-- **Writing onto a path that may hold a file** (`writeOver`, the definition the driver op `overwrite`
+executes, for every payload type): the call raises iff the writer itself refuses the object or the file
+is a FITS file, the path is occupied and `overwrite` is false; a call that raises leaves the path holding
+exactly what it held; a call that returns leaves exactly the file a write onto a fresh path produces —
+never the old file, never a mixture.  With `overwrite = true` (the default) or a free path the outcome is
+the writer's. -/
+theorem write_over_spec {P : Type} (prev : Option (Stored P)) (overwrite : Bool)
+    (w : Except Err (Stored P)) :
+    ((writeOver prev overwrite w).2.toBool = false ↔
+      (w.toBool = false ∨ ∃ st, w = .ok st ∧ st.fmt = .fits ∧ prev.isSome = true ∧ overwrite = false)) ∧
+    ((writeOver prev overwrite w).2.toBool = false → (writeOver prev overwrite w).1 = prev) ∧
+    (∀ st, (writeOver prev overwrite w).2.toBool = true → w = .ok st →
+      (writeOver prev overwrite w).1 = some st) ∧
+    ((overwrite = true ∨ prev = none) → (writeOver prev overwrite w).2.toBool = w.toBool) := by
+  cases w with
+  | error e => simp [writeOver, Except.toBool]
+  | ok st =>
+    by_cases hc : (st.fmt == .fits && prev.isSome && !overwrite) = true
+    · have hc' := hc
+      simp only [Bool.and_eq_true, beq_iff_eq, Bool.not_eq_true'] at hc'
+      obtain ⟨⟨h1, h2⟩, h3⟩ := hc'
+      refine ⟨?_, ?_, ?_, ?_⟩
+      · simp [writeOver, hc, Except.toBool, h1, h2, h3]
+      · simp [writeOver, hc]
+      · simp [writeOver, hc, Except.toBool]
+      · rintro (h | h)
+        · simp [h] at h3
+        · simp [h] at h2
+    · have hc' : (st.fmt == .fits && prev.isSome && !overwrite) = false := by simpa using hc
+      refine ⟨?_, ?_, ?_, ?_⟩
+      · simp only [writeOver, hc', Except.toBool]
+        constructor
+        · intro h; cases h
+        · rintro (h | ⟨st', hst, h1, h2, h3⟩)
+          · cases h
+          · injection hst with hst; subst hst
+            simp [h1, h2, h3] at hc'
+      · simp [writeOver, hc', Except.toBool]
+      · intro st' _ hst; injection hst with hst; subst hst; simp [writeOver, hc']
+      · intro _; simp [writeOver, hc', Except.toBool]
+
+/-- **Grid written over an existing file, then read**: whatever the path held and whatever `overwrite`
+says, if the call returns, reading the path gives the grid written (same conclusion as
+`grid_file_roundtrip`); if it raises, the path still holds the old file. -/
+theorem grid_write_over_roundtrip (lib : AsdfLib) (hl : AsdfFaithful lib) (name : List Char)
+    (fmt : Option String) (g : Grid) (h : g.Ok) (prev : Option (Stored Grid)) (overwrite : Bool) :
+    match writeOver prev overwrite (writeGridFile lib name fmt g) with
+    | (slot, .ok _) => ∃ c f, slot = some c ∧ formatOf name fmt = .ok f ∧
+        readGridFile name fmt c = .ok (if f = .pickle then g else g.pyWeights)
+    | (slot, .error _) => slot = prev := by
+  have hrt := (grid_file_roundtrip lib hl name fmt g h).2
+  cases hw : writeGridFile lib name fmt g with
+  | error e => simp [writeOver]
+  | ok st =>
+    obtain ⟨f, hf, hr⟩ := hrt st hw
+    by_cases hc : (st.fmt == .fits && prev.isSome && !overwrite) = true
+    · simp [writeOver, hc]
+    · have hc' : (st.fmt == .fits && prev.isSome && !overwrite) = false := by simpa using hc
+      simp only [writeOver, hc']
+      exact ⟨st, f, rfl, hf, hr⟩
+
+example : (match (writeOver (some (.pickle ⟨.cartesian, .regular [.float 1] [2] [.float 0], .null⟩)) false
+    (writeGridFile AsdfLib.observed "a.fits".toList none ⟨.cartesian, .regular [.float 1] [2] [.float 0], .null⟩)).2 with
+    | .error .fileExists => true | _ => false) = true := by decide +kernel
+
+/-- **`to_sparse()` has no threshold** (round 6, seeded class C16-11: dynamic range inside one mode).
+The dense → CSC conversion the FITS image path of a sparse basis goes through (`denseToCsc`, the
+executed definition) stores **every** element that is not exactly zero, however small it is relative to
+the other elements of its mode (column), stores nothing else, and stores no zero: column `j` holds
+`(i, x)` iff `i < n` and `x = d[i·m + j] ≠ 0`.  No magnitude appears in the statement: the values are
+arbitrary rationals (2^-1074 next to 2^1000 included). -/
+theorem to_sparse_keeps_every_nonzero (n m : Nat) (d : List Rat) (j i : Nat) (x : Rat) :
+    (i, x) ∈ colEntries n m d j ↔ i < n ∧ x = d.getD (i * m + j) 0 ∧ x ≠ 0 := by
+  simp only [colEntries, List.mem_filterMap, List.mem_range]
+  constructor
+  · rintro ⟨a, ha, h⟩
+    by_cases h0 : d.getD (a * m + j) 0 = 0
+    · rw [if_pos h0] at h; cases h
+    · rw [if_neg h0] at h
+      injection h with h
+      injection h with h1 h2
+      subst h1; subst h2
+      exact ⟨ha, rfl, h0⟩
+  · rintro ⟨hi, rfl, h0⟩
+    exact ⟨i, hi, by rw [if_neg h0]⟩
+
+/-- … and therefore the matrix read back through the image path has the dense values that were
+written, for every rational matrix (`cscToDense ∘ denseToCsc = id`; both are the executed definitions). -/
+theorem to_sparse_values_eq (dt : String) (n m : Nat) (d : List Rat) (hd : d.length = n * m) :
+    cscToDense (denseToCsc ⟨dt, [n, m], d⟩) = ⟨dt, [n, m], d⟩ ∧
+    (∀ e ∈ (denseToCsc ⟨dt, [n, m], d⟩).data.data, e ≠ 0) := by
+  refine ⟨cscToDense_denseToCsc dt n m d hd, ?_⟩
+  intro e he
+  simp only [denseToCsc, List.headD_cons, List.drop_succ_cons, List.drop_zero, List.mem_map,
+    List.mem_flatten, List.mem_range] at he
+  obtain ⟨⟨i, x⟩, ⟨l, ⟨j, _, rfl⟩, hl⟩, rfl⟩ := he
+  exact ((to_sparse_keeps_every_nonzero n m d j i x).1 hl).2.2
+
+example : (denseToCsc ⟨"f8", [2, 2], [1, (1 : Rat) / 2 ^ 70, 0, 2 ^ 70]⟩).data.data = [1, (1 : Rat) / 2 ^ 70, 2 ^ 70] := by
+  decide +kernel
+
+/-- **`scipy.sparse.csc_matrix(csr)` keeps every value**: the CSC record the repaired `to_dict()` emits
+for a CSR-holding basis stands for the same dense matrix as the CSR record (duplicates summed on both
+sides, explicit zeros kept), for every CSR record of every size — `csrToCsc` and `cscToDense` are the
+definitions the driver op `spstore` executes. -/
+theorem csr_to_csc_values_eq (r : Csc) (n m : Nat) (hs : r.shape = [n, m]) :
+    cscToDense (csrToCsc r) = csrToDense r :=
+  cscToDense_csrToCsc r n m hs
+
+example : ∃ r : Csc, r.shape = [2, 3] ∧ (cscToDense (csrToCsc r)).data = [1, 0, 3, 4, 0, 0] :=
+  ⟨⟨⟨"f8", [3], [1, 3, 4]⟩, ⟨"i4", [3], [0, 2, 0]⟩, ⟨"i4", [3], [0, 2, 3]⟩, [2, 3]⟩, rfl, by decide +kernel⟩
+
 /-- **Dictionary round trip for every sparse storage** (after the repair of D162): whatever the
 setter stored (CSC or CSR), `from_dict(to_dict(b))` is the sparse basis on the same grid whose matrix
-is the CSC conversion SciPy makes of the stored matrix.
-`_partial`: that this conversion has the same dense values (`cscToDense (csrToCsc r) = csrToDense r`)
-is not proved here — the stream `spstore` compares both sides (and the real `toarray()`) on every
-generated CSR matrix; formats without `indices` / `indptr` (COO, LIL, DIA, DOK) are converted by SciPy
-and not modelled (`SpStore.toCsc = none`). -/
-theorem sparse_store_dict_roundtrip_partial (s : SpStore) (c : Csc) (g : Grid) (h : g.Ok)
+is the CSC conversion SciPy makes of the stored matrix; for a CSR matrix that conversion is accepted by
+SciPy (`wellFormed`), has the same shape **and the same dense values** (round 6: proved, was compared
+only).  Formats without `indices` / `indptr` (COO, LIL, DIA, DOK) are converted by SciPy itself and are
+outside the model (`SpStore.toCsc = none`, excluded by `hc`); the harness compares them. -/
+theorem sparse_store_dict_roundtrip (s : SpStore) (c : Csc) (g : Grid) (h : g.Ok)
     (hc : s.toCsc = some c) :
     (ModeBasis.toDict ⟨.sparse c, some g⟩).bind (fun t => ModeBasis.fromDict t) = .ok ⟨.sparse c, some g⟩ ∧
-    (∀ r n m, s = .csr r → r.shape = [n, m] → c.wellFormed = true ∧ c.shape = [n, m]) := by
-  refine ⟨modebasis_dict_roundtrip ⟨.sparse c, some g⟩ g rfl h, ?_⟩
-  intro r n m hs hshape
-  subst hs
-  simp only [SpStore.toCsc] at hc
-  injection hc with hc
-  subst hc
-  have := csr_to_csc_wellformed r n m hshape
-  exact ⟨this.1, by rw [this.2, hshape]⟩
+    (∀ r n m, s = .csr r → r.shape = [n, m] →
+      c.wellFormed = true ∧ c.shape = [n, m] ∧ cscToDense c = csrToDense r) ∧
+    (∀ c', s = .csc c' → c = c') := by
+  refine ⟨modebasis_dict_roundtrip ⟨.sparse c, some g⟩ g rfl h, ?_, ?_⟩
+  · intro r n m hs hshape
+    subst hs
+    simp only [SpStore.toCsc] at hc
+    injection hc with hc
+    subst hc
+    have := csr_to_csc_wellformed r n m hshape
+    exact ⟨this.1, by rw [this.2, hshape], cscToDense_csrToCsc r n m hshape⟩
+  · intro c' hs
+    subst hs
+    simp only [SpStore.toCsc] at hc
+    injection hc with hc
+    exact hc.symm
+
+example : ∃ (s : SpStore) (c : Csc) (g : Grid), s.toCsc = some c ∧ g.Ok :=
+  ⟨.csr ⟨⟨"f8", [0], []⟩, ⟨"i4", [0], []⟩, ⟨"i4", [1], [0]⟩, [0, 1]⟩, _,
+    ⟨.noneSys, .regular [.float 1] [3] [.float 0], .null⟩, rfl,
+    by simp [Grid.Ok, knownSystem, Coords.WellFormed, Homogeneous, PyNum.isInt]⟩
 
 example : (SpStore.csr ⟨⟨"f8", [3], [1, 3, 4]⟩, ⟨"i4", [3], [0, 2, 0]⟩, ⟨"i4", [3], [0, 2, 3]⟩, [2, 3]⟩).toCsc.map
     (fun c => (c.wellFormed, (cscToDense c).data)) = some (true, [1, 0, 3, 4, 0, 0]) := by decide +kernel
